@@ -162,6 +162,70 @@ def instrument(rec):
     wrap_validator(IsTradingValidator, "is_trading", trading_inputs)
     wrap_validator(SelfTradeValidator, "self_trade", self_inputs)
 
+    # ---- the bar matcher: one record per match() call
+    from rqalpha.mod.rqalpha_mod_sys_simulation.matcher import DefaultBarMatcher
+    from rqalpha.core.events import EVENT as _EV
+    orig_match = DefaultBarMatcher.match
+    saved[(DefaultBarMatcher, "match")] = orig_match
+
+    def osnap(o):
+        return {"id": o.order_id, "book": o.order_book_id, "is_buy": o.side.name == "BUY", "is_limit": o.type.name == "LIMIT", "price": float(o.price), "effect": o.position_effect.name,
+                "qty": o.quantity, "filled": o.filled_quantity, "status": o.status.name, "avg": float(o.avg_price), "cost": float(o.transaction_cost),
+                "frozen_price": float(o._frozen_price) if o._frozen_price is not None else float("nan"), "init_frozen": float(o._init_frozen_cash) if o._init_frozen_cash is not None else 0.0,
+                "direction": o.position_direction.name}
+
+    def match_w(self, account, order, open_auction):
+        env = self._env
+        pre = osnap(order)
+        tv = self._turnover[order.order_book_id] if order.order_book_id in self._turnover else 0
+        cash = float(account.cash)
+        captured = []
+        bus = env.event_bus
+        orig_pub = bus.publish_event
+
+        def pub(ev):
+            if ev.event_type == _EV.TRADE:
+                t = ev.trade
+                captured.append({"price": float(t.last_price), "qty": t.last_quantity, "commission": float(t.commission), "tax": float(t.tax), "close_today": t.close_today_amount})
+            return orig_pub(ev)
+        bus.publish_event = pub
+        stamped = {}
+        oc, ot = env.get_trade_commission, env.get_trade_tax
+
+        def gc(trade):
+            v = oc(trade)
+            stamped["commission"] = float(v)
+            stamped["price"] = float(trade.last_price)
+            stamped["qty"] = trade.last_quantity
+            stamped["close_today"] = trade.close_today_amount
+            return v
+
+        def gt(trade):
+            v = ot(trade)
+            stamped["tax"] = float(v)
+            return v
+        env.get_trade_commission, env.get_trade_tax = gc, gt
+        raised = None
+        try:
+            return orig_match(self, account, order, open_auction)
+        except Exception as ex:
+            raised = ex
+            raise
+        finally:
+            try:
+                del bus.publish_event
+            except AttributeError:
+                pass
+            for nm in ("get_trade_commission", "get_trade_tax"):
+                try:
+                    delattr(env, nm)
+                except AttributeError:
+                    pass
+            rec.match_calls.append({"stamped": stamped, "pre": pre, "post": osnap(order), "turnover": tv, "turnover_after": self._turnover.get(order.order_book_id, 0), "cash": cash,
+                                    "auction": bool(open_auction), "trades": captured, "raised": type(raised).__name__ if raised else None, "when": rec.now(),
+                                    "account": account.type})
+    DefaultBarMatcher.match = match_w
+
     # ---- portfolio-level operations
     from rqalpha.portfolio import Portfolio
 
